@@ -6,7 +6,8 @@ use crate::app::control::*;
 use crate::app::parse::options::ParseOptions;
 use crate::app::variations::{Group12Var1, Group41Var1, Group41Var2, Group41Var3, Group41Var4};
 use crate::app::{
-    BufferSize, FunctionCode, RetryStrategy, Sequence, Timeout, Timestamp, Variation,
+    BufferSize, FunctionCode, Permissions, RetryStrategy, Sequence, Timeout, Timestamp,
+    Variation,
 };
 use crate::link::reader::LinkModes;
 use crate::link::{EndpointAddress, LinkErrorMode, LinkReadMode};
@@ -251,6 +252,15 @@ pub enum UserReq {
     /// read a remote file through a recording FileReader (the outcome is its terminal callback)
     ReadFile(u16),
     GetFileInfo,
+    /// read a remote file after authenticating (one more protocol step in front)
+    ReadFileAuth(u16),
+    /// read a directory (file transfer whose blocks hold g70v7 descriptors); the outcome is the promise's
+    ReadDirectory,
+    FileAuth,
+    FileOpen,
+    /// write one block: (block number, last?, data length)
+    FileWriteBlock(u32, bool, usize),
+    FileClose,
     /// READ with several headers: (kind 0 all | 1 range8 | 2 range16 | 3 count8 | 4 count16, group, variation, a, b)
     ReadHeaders(Vec<(u8, u8, u8, u16, u16)>),
 }
@@ -613,6 +623,70 @@ impl MasterSim {
                     }
                 }
                 UserReq::GetFileInfo => format!("{:?}", h.get_file_info("some/file.txt").await),
+                UserReq::ReadFileAuth(max_block) => {
+                    let reader = RecFileReader {
+                        shared: shared.clone(),
+                        id,
+                        t0,
+                        blocks: 0,
+                        bytes: 0,
+                        opened: None,
+                    };
+                    let mut fcfg = FileReadConfig::default();
+                    fcfg.max_block_size = max_block;
+                    let cred = FileCredentials {
+                        user_name: "user".into(),
+                        password: "secret".into(),
+                    };
+                    match h
+                        .read_file("some/file.txt", fcfg, Box::new(reader), Some(cred))
+                        .await
+                    {
+                        Ok(()) => return,
+                        Err(e) => format!("Err(not queued: {e:?})"),
+                    }
+                }
+                UserReq::ReadDirectory => {
+                    let cfg = DirReadConfig {
+                        max_block_size: 64,
+                        max_file_size: 4096,
+                    };
+                    format!("{:?}", h.read_directory("some/dir", cfg, None).await)
+                }
+                UserReq::FileAuth => {
+                    let cred = FileCredentials {
+                        user_name: "user".into(),
+                        password: "secret".into(),
+                    };
+                    format!("{:?}", h.get_file_auth_key(cred).await)
+                }
+                UserReq::FileOpen => format!(
+                    "{:?}",
+                    h.open_file(
+                        "some/file.txt",
+                        AuthKey::new(7),
+                        Permissions::default(),
+                        100,
+                        FileMode::Write,
+                        64
+                    )
+                    .await
+                ),
+                UserReq::FileWriteBlock(n, last, len) => {
+                    let mut b = BlockNumber::default();
+                    for _ in 0..n {
+                        let _ = b.increment();
+                    }
+                    if last {
+                        b.set_last();
+                    }
+                    format!(
+                        "{:?}",
+                        h.write_file_block(FileHandle::new(0x0102_0304), b, vec![0x5A; len])
+                            .await
+                    )
+                }
+                UserReq::FileClose => format!("{:?}", h.close_file(FileHandle::new(0x0102_0304)).await),
                 UserReq::ReadHeaders(hs) => {
                     let mut v = vec![];
                     let mut bad = false;
